@@ -485,6 +485,55 @@ def r7_narrowing(repo):
     return obs
 
 
+def r8_call_assembly(repo):
+    """A call node is assembled from the very declaration / maps the arguments were generated for."""
+    obs = []
+    f = _m(repo, "_gen_func_call")
+    fc = [c for c in calls_in(f.node) if call_name(c) == "FunctionCall"]
+    ok = len(fc) == 1
+    if ok:
+        c = fc[0]
+        ta = kwarg(c, "type_args")
+        g = cfg_of(f.node)
+        d = g.defs_reaching(ta.id, c) if isinstance(ta, ast.Name) else []
+        shape = len(d) == 1 and isinstance(d[0][1], ast.IfExp) and isinstance(d[0][1].orelse, ast.ListComp) and \
+            src(d[0][1].test) == "not func.is_parameterized()" and isinstance(d[0][1].body, ast.List) and not d[0][1].body.elts
+        if shape:
+            lc = d[0][1].orelse
+            shape = src(lc.generators[0].iter) == "func.type_parameters" and not lc.generators[0].ifs and \
+                src(lc.elt) == "func_type_map[%s]" % src(lc.generators[0].target)
+        ok = shape and src(c.args[0]) == "func.name" and src(c.args[1]) == "args" and src(c.args[2]) == "receiver"
+        # func, receiver, maps all come from the one selected candidate
+        sel = g.defs_reaching("rand_func", c) if ok else []
+        names = {"func": "attr_decl", "receiver": "receiver_expr", "params_map": "receiver_inst", "func_type_map": "attr_inst"}
+        for nm, attr in names.items():
+            dd = g.defs_reaching(nm, c)
+            ok = ok and len(dd) == 1 and src(dd[0][1]).endswith("." + attr) and \
+                src(dd[0][1]).split(".")[0] == src(c.args[0]).split(".")[0].replace("func", src(dd[0][1]).split(".")[0])
+    obs.append(Ob("C01-R8", "_gen_func_call:node-assembled-from-the-selected-candidate", _w(f), ok,
+                  "name, receiver, the substitution map used for the arguments and the explicit type arguments (one per type "
+                  "parameter of the callee, taken from its type-variable map) must all come from the one selected candidate"))
+    upd = [c for c in calls_in(f.node) if call_name(c) == "update" and src(c.func.value) == "params_map"]
+    loops = [n for n in iter_own_nodes(f.node) if isinstance(n, ast.For) and src(n.iter) == "func.params"]
+    ok = len(upd) == 1 and len(loops) == 1 and upd[0].lineno < loops[0].lineno and "func_type_map" in src(upd[0].args[0])
+    obs.append(Ob("C01-R8", "_gen_func_call:method-type-arguments-merged-before-parameter-types-are-substituted", _w(f), ok,
+                  "the callee's own type-variable assignments must be merged into the substitution map before argument types are computed"))
+    f = _m(repo, "gen_new")
+    nw = [c for c in calls_in(f.node) if call_name(c) == "New" and src(c.args[0]) == "new_type"]
+    ok = len(nw) == 1 and src(nw[0].args[1]) == "args"
+    if ok:
+        g = cfg_of(f.node)
+        d = g.defs_reaching("new_type", nw[0])
+        texts = sorted(src(x[1]) for x in d if isinstance(x[1], ast.AST))
+        ok = texts == ["class_decl.get_type()", "new_type.new(etype.type_args)"]
+        tm = [n for n in iter_own_nodes(f.node) if isinstance(n, ast.Assign) and src(n.targets[0]) == "type_param_map"]
+        ok = ok and len(tm) == 1 and "etype.type_args[i]" in src(tm[0].value) and "class_decl.type_parameters" in src(tm[0].value)
+    obs.append(Ob("C01-R8", "gen_new:created-type-uses-the-type-arguments-the-fields-were-substituted-with", _w(f), ok,
+                  "constructor arguments are generated for field types substituted with etype.type_args, and the created "
+                  "type is class_decl's constructor instantiated with the same etype.type_args"))
+    return obs
+
+
 def rules():
     return [
         RuleSpec("C01-R1", "direction of every compatibility test in the generator", 8, r1_direction),
@@ -494,6 +543,7 @@ def rules():
         RuleSpec("C01-R5", "wildcard sinks get a bottom value", 4, r5_wildcard_sinks),
         RuleSpec("C01-R6", "inheritance obligations", 5, r6_inheritance),
         RuleSpec("C01-R7", "expected types are only narrowed, under the subtype flag", 4, r7_narrowing),
+        RuleSpec("C01-R8", "call / constructor nodes assembled from the selected candidate", 3, r8_call_assembly),
     ]
 
 
@@ -587,6 +637,19 @@ def _v_narrow_always(tree):
     st.value = V.parse_expr("expr_type and expr_type != self.bt_factory.get_void_type() and ut.random.bool()")
 
 
+def _v_type_args_reversed(tree):
+    f = V.find_def(tree, "Generator._gen_func_call")
+    lc = V.one([n for n in ast.walk(f) if isinstance(n, ast.ListComp) and "func_type_map[" in ast.unparse(n)])
+    lc.generators[0].iter = V.parse_expr("reversed(func.type_parameters)")
+
+
+def _v_new_other_args(tree):
+    f = V.find_def(tree, "Generator.gen_new")
+    st = V.one([n for n in ast.walk(f) if isinstance(n, ast.Assign) and ast.unparse(n.targets[0]) == "new_type"
+                and ".new(" in ast.unparse(n.value)])
+    st.value = V.parse_expr("tu.instantiate_type_constructor(new_type, self.get_types())[0]")
+
+
 def _t_rename(tree):
     f = V.find_def(tree, "Generator._gen_func_call")
     V.rename_local(f, "rand_func", "picked")
@@ -610,6 +673,8 @@ def variants():
         V.Variant("parameterized abstract functions not implemented", g, _v_skip_abstract, {"C01-R6"}),
         V.Variant("expected type widened with find_supertypes", g, _v_supertypes, {"C01-R7"}),
         V.Variant("narrowing ignores the caller's subtype flag", g, _v_narrow_always, {"C01-R7"}),
+        V.Variant("explicit type arguments listed in reverse order", g, _v_type_args_reversed, {"C01-R8"}),
+        V.Variant("created object re-instantiated with fresh type arguments", g, _v_new_other_args, {"C01-R8"}),
         V.Variant("twin: rename locals in _gen_func_call", g, _t_rename, None, twin=True),
         V.Variant("twin: whole tree reformatted by ast.unparse", None, None, None, twin=True),
     ]
